@@ -300,6 +300,7 @@ func propC09() *PropSpec {
 			js = append(js, jobsN("css", "VerifCSSImport", rng(0, 3), "css: @import URL stays a well-formed string")...)
 			js = append(js, jobsN("css", "VerifCSSFuncArgs", []int{0}, "css: argument tokens never fuse (output parses to the same tokens)")...)
 			js = append(js, jobsN("js", "VerifJSNullish", []int{0}, "js: nullish / optional call / Math.pow patterns (also under unary and ** operators): output parses again")...)
+			js = append(js, jobsN("js", "VerifJSDeclBody", []int{0}, "js: a declaration in a block never becomes the body of if / else / loop / with / label (18 wrappers x 12 blocks x strict x nesting)")...)
 			js = append(js, jobsN("js", "VerifJSAdjacency", []int{0}, "js: x = L OP R for 17 operand forms x 18 operators: same expression tree, no comment opener or other token formed by adjacency")...)
 			js = append(js, jobsN("css", "VerifCSSDataURL", rng(1, 2), "css: url() around a re-encoded data URI stays one well-formed token")...)
 			js = append(js, jobsN("json", "VerifJSONValue", pick(rng(1, 4), rng(1, 5)), "json: RFC-valid input => RFC-valid output (reference recogniser)")...)
@@ -446,6 +447,7 @@ func propC01() *PropSpec {
 			js = append(js, jobsN("js", "VerifJSParens", []int{0}, "x=((a OP1 b) OP2 c), x=(a OP1 (b OP2 c)) and conditional forms for all pairs of 18 binary operators: same expression tree (up to associativity of && || ??)")...)
 			js = append(js, jobsN("js", "VerifJSGroupPostfix", []int{0}, "x=(INNER)POST for 33 inner forms x 10 postfix forms: parentheses dropped only where the expression tree stays the same")...)
 			js = append(js, jobsN("js", "VerifJSBoolCoerce", []int{0}, "!!(E), E?true:false, E?Y:false ... with E = A op B over comparisons, negations and plain values: coercion only dropped for boolean E")...)
+			js = append(js, jobsN("js", "VerifJSDeclBody", []int{0}, "18 statement wrappers x 12 blocks holding a function / generator / async / class / let / const declaration x strict prologue x function nesting x KeepVarNames: no declaration becomes the body of if / else / loop / with / label, calls kept")...)
 			js = append(js, jobsN("js", "VerifJSBuiltins", []int{0}, "22 programs x 2 targets: isNaN / Math.trunc / Math.abs calls on variables and locally bound `undefined`, run by the reference evaluator on symbolic argument values (undefined, null, booleans, NaN-free small numbers, strings)")...)
 			js = append(js, jobsN("js", "VerifJSDanglingElse", []int{0}, "9 nested if / else-if shapes x 3 body sets (blocks with lexical declarations): every else stays with its if")...)
 			return js
